@@ -37,6 +37,8 @@ def gen_T(rng, depth, d):
         return [op, gen_T(rng, depth - 1, d), rng.randrange(d)]
     if op == 'kronnone':
         return [op, gen_T(rng, depth - 1, d), rng.randrange(4)]
+    if op == 'padslice':
+        return [op, gen_T(rng, depth - 1, d), rng.randrange(0, d + 1)]
     if op in ('tsadd', 'tsradd', 'tssub', 'tsmul', 'tsdiv'):
         # TT combined with a scalar that itself depends on tracked cores (a 0-d tensor inside the autograd graph)
         sk = rng.choice(['sum', 'norm2', 'dot'])
@@ -128,8 +130,11 @@ def eval_tt(node, E):
     if op == 'mprod':
         return T(1).mprod(E.Q[node[2]], node[2])
     if op == 'padslice':
-        p = tt.pad(T(1), tuple((1, 1) for _ in N), 0.5)
-        idx = tuple(slice(1, 1 + n) for n in N)
+        # padding on ALL modes, or (node[2] = k < d) on the last k modes only: the leading cores are then not padded
+        kp = node[2] if len(node) > 2 and node[2] else d
+        kp = min(max(kp, 1), d)
+        p = tt.pad(T(1), tuple((1, 1) for _ in N[d - kp:]), 0.5)
+        idx = tuple(slice(None) for _ in N[:d - kp]) + tuple(slice(1, 1 + n) for n in N[d - kp:])
         return p[idx] if d > 1 else p[idx[0]]
     if op == 'catslice':
         k = node[3]
